@@ -97,3 +97,16 @@ Proof.
   destruct Hm as [->|[->|[->| ->]]]; unf; cbn [meqb andb starts_central] in *; split_ifs;
   destruct Hq as [->|[->|[->|[->|[->|[->| ->]]]]]]; tbls; try lia.
 Qed.
+
+(* (v) the first Taylor index the rule does not control is n + method_order: the leading power of the
+   remaining error is h^method_order, and by the support theorem the later ones are spaced by the table's
+   step, which is richardson_step -- exactly what Richardson(step = richardson_step, order = method_order) removes *)
+Theorem first_uncontrolled_index m n order : 1 <= n -> 1 <= order -> m = Central \/ m = Forward \/ m = Backward \/ m = Complex ->
+  let p := rule_parity m n order in
+  offset_tbl p + step_tbl p * rule_num_terms m n order = n + method_order m n order
+  /\ step_tbl p = richardson_step m n order.
+Proof.
+  intros Hn Ho Hm p. subst p. by_parity m n order Hn Ho.
+  destruct Hm as [->|[->|[->| ->]]]; unf; cbn [meqb andb starts_central] in *; split_ifs;
+  destruct Hq as [->|[->|[->|[->|[->|[->| ->]]]]]]; tbls; try lia.
+Qed.
